@@ -22,6 +22,8 @@ _Bool nondet_bool(void);
 #define warnx verif_warnx
 #define fprintf verif_fprintf
 #define uncompress verif_uncompress
+#define compress2 verif_compress2
+#define sendto verif_sendto_c
 #define memcpy verif_memcpy_c
 #define strlen verif_strlen_c
 unsigned long g_m;                         /* ghost: arbitrary byte index for copy models */
@@ -88,7 +90,6 @@ static void verif_stub_send_chunk(int fd);
 #define errx verif_errx
 #define select verif_select
 #define recv verif_recv
-#define sendto verif_sendto_c
 #define fflush verif_fflush
 static void verif_stub_send_login(int fd, char *login, int len);
 static void verif_stub_send_version(int fd, unsigned version);
@@ -117,7 +118,6 @@ static int verif_sscanf4(const char *str, char *a, char *b, int *c, int *d);
 #undef errx
 #undef select
 #undef recv
-#undef sendto
 #undef fflush
 #endif
 #undef memcpy
@@ -128,6 +128,8 @@ static int verif_sscanf4(const char *str, char *a, char *b, int *c, int *d);
 #undef warnx
 #undef fprintf
 #undef uncompress
+#undef compress2
+#undef sendto
 #ifdef STUB_TUNNEL
 #undef read_dns_withq
 #undef send_ping
@@ -169,6 +171,13 @@ static size_t verif_strlen_c(const char *s)
 	return n;
 }
 
+static int g_sendto_calls; static size_t g_sendto_len; static unsigned char g_sendto_b3;
+ssize_t verif_sendto_c(int fd, const void *buf, size_t len, int flags, const struct sockaddr *to, socklen_t tolen)
+{
+	__CPROVER_assert(len == 0 || __CPROVER_r_ok(buf, len), "sendto: buffer readable for len bytes");
+	g_sendto_calls++; g_sendto_len = len; g_sendto_b3 = len > 3 ? ((const unsigned char *)buf)[3] : 0;
+	return (ssize_t)len;
+}
 /* ---- stubs for other translation units (contracts proved in their own groups) --------------------- */
 /* the four codecs: identity of the codec is what matters here; decoders obey the C07 contract
  * (at most *dstlen bytes + NUL written, result 0..*dstlen) */
@@ -267,6 +276,7 @@ static void verif_stub_send_ping(int fd) { g_pings++; }
 static void verif_stub_send_chunk(int fd)
 {
 	/* contract of send_chunk: sends the next fragment and records how many bytes of the packet it carries */
+	__CPROVER_assert(outpkt.len > 0 && outpkt.offset >= 0 && outpkt.offset < outpkt.len, "send_chunk precondition: bytes of the upstream packet remain to be sent");
 	g_chunks++;
 	outpkt.sentlen = nondet_int();
 	__CPROVER_assume(outpkt.sentlen >= 0 && outpkt.sentlen <= outpkt.len - outpkt.offset);
@@ -336,6 +346,60 @@ void h_tunnel_dns(void)
 	}
 	VERIF_REACH();
 }
+
+/* ---- client tunnel_tun: a packet from the tun device becomes the upstream packet (C01) --------------------------- */
+static int g_rt_ret, g_rt_calls, g_z_calls; static const void *g_rt_buf, *g_z_src, *g_z_dst; static unsigned long g_z_srclen, g_z_out;
+ssize_t read_tun(int fd, char *buf, size_t len)
+{
+	__CPROVER_assert(__CPROVER_w_ok(buf, len), "read_tun: buffer writable for len bytes");
+	g_rt_calls++; g_rt_buf = buf;
+	__CPROVER_assume(g_rt_ret >= -1 && (size_t)(g_rt_ret < 0 ? 0 : g_rt_ret) <= len);
+	return g_rt_ret;
+}
+int verif_compress2(unsigned char *dest, unsigned long *destLen, const unsigned char *source, unsigned long sourceLen, int level)
+{
+	/* zlib (external, A7): writes at most *destLen bytes into dest and reports how many */
+	__CPROVER_assert(__CPROVER_w_ok(dest, *destLen), "compress2: output writable for *destLen bytes");
+	__CPROVER_assert(sourceLen == 0 || __CPROVER_r_ok(source, sourceLen), "compress2: input readable for sourceLen bytes");
+	g_z_calls++; g_z_src = source; g_z_srclen = sourceLen; g_z_dst = dest;
+	unsigned long n = nondet_size_t();
+	__CPROVER_assume(n >= 1 && n <= *destLen);          /* a zlib stream is never empty (2-byte header at least) */
+	if (*destLen) __CPROVER_havoc_slice(dest, *destLen);
+	*destLen = n; g_z_out = n;
+	return 0;
+}
+void h_tunnel_tun(void)
+{
+	__CPROVER_havoc_object(&inpkt); __CPROVER_havoc_object(&outpkt);
+	__CPROVER_assume(CLIENT_WF());
+	conn = nondet_bool() ? CONN_DNS_NULL : CONN_RAW_UDP;
+	userid = (char)nondet_int();
+	g_rt_ret = nondet_int();
+	g_rt_calls = g_z_calls = g_chunks = g_sendto_calls = g_tun_writes = 0;
+	int out_len0 = outpkt.len, out_off0 = outpkt.offset, out_sent0 = outpkt.sentlen;
+	char out_seq0 = outpkt.seqno, out_frag0 = outpkt.fragment;
+	unsigned char ghost0 = g_m < sizeof(outpkt.data) ? (unsigned char)outpkt.data[g_m] : 0;
+	int r = tunnel_tun(7, 8);
+	_Bool out_same = outpkt.len == out_len0 && outpkt.offset == out_off0 && outpkt.sentlen == out_sent0 && outpkt.seqno == out_seq0 && outpkt.fragment == out_frag0
+		&& (!(g_m < sizeof(outpkt.data)) || (unsigned char)outpkt.data[g_m] == ghost0);
+	__CPROVER_assert(g_rt_calls == 1 && g_tun_writes == 0, "one packet is read from tun, nothing is written to it");
+	/* C01: while a packet is still being sent upstream, a packet read only to drain the tun device must not disturb it -
+	 * neither its position nor ONE BYTE of its data (arbitrary ghost index) */
+	__CPROVER_assert(!(g_rt_ret <= 0 || out_len0 != 0) || (r == -1 && out_same && g_chunks == 0 && g_sendto_calls == 0), "no packet, or a packet while the previous one is still in flight: the upstream packet (position and every byte) is untouched and nothing is sent");
+	if (g_rt_ret > 0 && out_len0 == 0) {
+		__CPROVER_assert(g_z_calls == 1 && g_z_src == g_rt_buf && g_z_srclen == (unsigned long)g_rt_ret, "exactly the bytes read from tun are compressed");
+		__CPROVER_assert(g_z_out <= sizeof(outpkt.data), "the compressed packet fits the upstream buffer (zlib's output buffer has the same capacity)");
+		__CPROVER_assert(outpkt.seqno == ((out_seq0 + 1) & 7) && outpkt.fragment == 0 && outpkt.offset == 0, "a new upstream packet starts at fragment 0, offset 0, with the next sequence number");
+		if (conn == CONN_DNS_NULL) {
+			__CPROVER_assert(outpkt.len == (int)g_z_out && g_chunks == 1 && g_sendto_calls == 0, "DNS mode: the packet has exactly zlib's length and its first fragment is sent");
+		} else {
+			__CPROVER_assert(g_chunks == 0 && g_sendto_calls == 1 && g_sendto_len == (g_z_out < 4092 ? g_z_out : 4092) + 4 && (g_sendto_b3 & 0xF0) == RAW_HDR_CMD_DATA && outpkt.len == 0, "raw mode: one raw data frame with the compressed packet, nothing left pending");
+		}
+		__CPROVER_assert(r == g_rt_ret, "result = bytes read");
+	}
+	__CPROVER_assert(CLIENT_WF(), "the packet state invariant is preserved");
+	VERIF_REACH();
+}
 #endif
 
 /* ---- handshake parsers (C06: every reply-derived index stays inside its buffer; C13: what reaches tun_setip /
@@ -393,13 +457,6 @@ ssize_t verif_recv(int fd, void *buf, size_t len, int flags)
 	g_recv_ret = nondet_int();
 	__CPROVER_assume(g_recv_ret >= -1 && (size_t)(g_recv_ret < 0 ? 0 : g_recv_ret) <= len);
 	return g_recv_ret;
-}
-static int g_sendto_calls; static size_t g_sendto_len; static unsigned char g_sendto_b3;
-ssize_t verif_sendto_c(int fd, const void *buf, size_t len, int flags, const struct sockaddr *to, socklen_t tolen)
-{
-	__CPROVER_assert(len == 0 || __CPROVER_r_ok(buf, len), "sendto: buffer readable for len bytes");
-	g_sendto_calls++; g_sendto_len = len; g_sendto_b3 = len > 3 ? ((const unsigned char *)buf)[3] : 0;
-	return (ssize_t)len;
 }
 /* other translation units */
 static int g_lc_calls, g_lc_seed[4]; static const char *g_lc_pass[4];
